@@ -97,7 +97,7 @@ Definition left_optional_join (fix9 : bool) (t t2 : table) : outcome loj_result 
     match fix9, trows t2 with
     | true, [] =>
         (* after fix F9: with an empty right table every left row is NULL-extended instead of being multiplied away *)
-        Ok (LojTable (mkTable (add_all (tb t) (tb t2)) (map (fun r => extend_row r (tb t2)) (trows t))))
+        Ok (LojTable (mkTable (add_all (tb t) (tb t2)) (map (fun r => extend_row r (add_all (tb t) (tb t2))) (trows t))))
     | _, _ => match dot_product t t2 with
               | Ok t' => Ok (LojTable t')
               | Err e => Err e
